@@ -38,6 +38,13 @@ type vfC15Case struct {
 
 const vfMiB = uint64(1) << 20
 
+// vfOverMargin: an "over" request asks for the free space measured a moment ago plus this much. The margin has to be
+// larger than everything that may be subtracted or may change in between: the spaces already indexed in the directory
+// count towards the request, and the free space of the file system moves while other processes write (the parallel
+// shards of this very check do); a request within a few bytes of the free space is not what "beyond free disk space"
+// means and is decided by whoever reads the counter last.
+const vfOverMargin = uint64(64) << 30
+
 func vfGenSize(t *rapid.T, label string) uint64 {
 	s24, s26, s28 := vfPlotSize(24), vfPlotSize(26), vfPlotSize(28)
 	switch rapid.IntRange(0, 7).Draw(t, label+"Kind") {
@@ -347,7 +354,7 @@ func vfC15Run(c vfC15Case, ctx *vlib.Ctx) *vlib.Failure {
 		case "size":
 			target := op.Size
 			if op.Over {
-				target = free(sk.dbDirs[0]) + op.Size + s24
+				target = free(sk.dbDirs[0]) + op.Size + s24 + vfOverMargin
 			}
 			res, err := sk.ConfigureBySize(target, false, false)
 			if target < s24 && err == nil {
@@ -384,7 +391,7 @@ func vfC15Run(c vfC15Case, ctx *vlib.Ctx) *vlib.Failure {
 			}
 			for i, s := range op.Sizes {
 				if op.OverI == i+1 && i < len(paths) {
-					s = free(cleanPaths[i]) + s + s24
+					s = free(cleanPaths[i]) + s + s24 + vfOverMargin
 				}
 				sizes[i] = int(s)
 				if i < len(paths) {
